@@ -2930,14 +2930,15 @@ class StridedInterval:
 
         elif self.is_integer:
             integer = self.lower_bound
-            if (b.lower_bound - integer) % b.stride == 0 and b._surrounds_member(integer):
+            # a member is a whole number of strides *above* the lower bound, going round the circle if need be
+            if self._modular_sub(integer, b.lower_bound, self.bits) % b.stride == 0 and b._surrounds_member(integer):
                 ret = (StridedInterval(bits=self.bits, stride=0, lower_bound=integer, upper_bound=integer),)
             else:
                 ret = (StridedInterval.empty(self.bits),)
 
         elif b.is_integer:
             integer = b.lower_bound
-            if (integer - self.lower_bound) % self.stride == 0 and self._surrounds_member(integer):
+            if self._modular_sub(integer, self.lower_bound, self.bits) % self.stride == 0 and self._surrounds_member(integer):
                 ret = (StridedInterval(bits=self.bits, stride=0, lower_bound=integer, upper_bound=integer),)
             else:
                 ret = (StridedInterval.empty(self.bits),)
